@@ -475,14 +475,23 @@ def run(rep: Report, prog: Program, tier: str) -> None:
         ef = next(iter(extractors))
         pats = []
         for n in prog._own_nodes(ef.node):
-            if isinstance(n, ast.Attribute) and n.attr in ("search", "match", "findall") and isinstance(n.value, ast.Name):
-                val = ef.module.assigns.get(n.value.id)
-                if val is None:
-                    k, pp = prog.lookup_name(n.value.id, ef, ef.module)
-                    if k == "assign":
-                        val = pp[1]
-                if isinstance(val, ast.Call) and val.args and isinstance(val.args[0], ast.Constant) and isinstance(val.args[0].value, str):
+            if isinstance(n, ast.Attribute) and n.attr in ("search", "match", "findall") and isinstance(n.value, (ast.Name, ast.Call)):
+                if isinstance(n.value, ast.Call):
+                    val = n.value  # `re.compile(r"...").search(arg)`: the pattern spelled at the point of use
+                else:
+                    val = ef.module.assigns.get(n.value.id)
+                    if val is None:
+                        k, pp = prog.lookup_name(n.value.id, ef, ef.module)
+                        if k == "assign":
+                            val = pp[1]
+                        else:
+                            # a local bound once to the compiled pattern
+                            loc = [a.value for a in prog._own_nodes(ef.node) if isinstance(a, ast.Assign) and len(a.targets) == 1 and isinstance(a.targets[0], ast.Name) and a.targets[0].id == n.value.id]
+                            val = loc[0] if len(loc) == 1 else None
+                if isinstance(val, ast.Call) and val.args and isinstance(val.args[0], ast.Constant) and isinstance(val.args[0].value, str) and ast.unparse(val.func).split(".")[-1] == "compile":
                     pats.append((n.attr, val.args[0].value))
+            elif isinstance(n, ast.Call) and ast.unparse(n.func) in ("re.search", "re.match") and n.args and isinstance(n.args[0], ast.Constant) and isinstance(n.args[0].value, str):
+                pats.append((ast.unparse(n.func).split(".")[-1], n.args[0].value))  # `re.search(r"...", arg)`
         rep.instance("R19.6", f"{cq.split(':')[1]}|regex", {"extractor": ef.qual, "patterns": pats})
         if len(pats) != 1 or pats[0][0] != "search":
             rep.fail("R19.6", f"{cq.split(':')[1]}|regex-use", f"{ef.qual}: expected one `<compiled regex>.search(arg)`; found {pats}", where=ef.where(), function=ef.qual)
@@ -505,7 +514,11 @@ def run(rep: Report, prog: Program, tier: str) -> None:
     rep.rule("R19.4", "strict never looks at names: every path of _classify that reads the exception's type name has use_name_heuristics true; strict_classifier passes False, default_classifier True")
     q = prog.func("redress.classify:_classify").qual
     for p in allpaths[q]:
-        reads = any("__name__" in show(a) for a, _pol, _ in p.conds) or any("__name__" in show(e.result) for e in p.calls(pure=None) if e.result is not None)
+        # the exception's type name - `type(err).__name__` / `err.__class__.__name__` - not the module's own `__name__`
+        def names_type(t) -> bool:
+            return any(isinstance(x, tuple) and len(x) == 3 and x[0] == "attr" and x[2] == "__name__" and isinstance(x[1], tuple) and x[1] and x[1][0] in ("pure", "attr") for x in subterms(t))
+
+        reads = any(names_type(a) for a, _pol, _ in p.conds) or any(names_type(e.result) for e in p.calls(pure=None) if e.result is not None)
         flag = next((pol for a, pol, _ in p.conds if a == ("param", FLAG)), None)
         rep.instance("R19.4", f"_classify|reads_name={reads}|flag={flag}")
         if reads and flag is not True:
